@@ -47,11 +47,12 @@ def goFindStart (len init : I64) : Option I64 :=
   let si := if BitVec.slt si 0#64 then 0#64 else si
   if BitVec.slt si 0#64 || BitVec.slt len si then none else some si
 
-/-- matching.go `find`, plain branch AS WRITTEN: `i := strings.Index(s[si:], ptn)` and the
-    results `i+1, i+len(ptn)` — the offset `si` is not added back. -/
+/-- matching.go `find`, plain branch: `i := strings.Index(s[si:], ptn)` and the results
+    `int64(si+i+1), int64(si+i+len(ptn))`, computed in Go `int` (= `BitVec 64`) arithmetic. -/
 def goFindPlain (s p : Bytes) (init : I64) : Option (Int × Int) :=
   match goFindStart (lenOf s) init with
   | none => none
-  | some si => (search p (s.drop si.toNat) 0).map fun i => ((i : Int) + 1, (i : Int) + p.length)
+  | some si => (search p (s.drop si.toNat) 0).map fun i =>
+      ((si + BitVec.ofNat 64 i + 1#64).toInt, (si + BitVec.ofNat 64 i + BitVec.ofNat 64 p.length).toInt)
 
 end GoluaVerif.Model.StrLib
